@@ -60,14 +60,25 @@ func TdxPolicy(ctx context.Context, endorsement *epb.VMLaunchEndorsement, opts *
 	} else {
 		result = proto.Clone(opts.Base).(*tcpb.Policy)
 	}
+	if opts.RAMGiB < 0 {
+		return nil, fmt.Errorf("RAM size %d GiB is negative", opts.RAMGiB)
+	}
 	var mrtds [][]byte
 	for _, m := range golden.Tdx.Measurements {
 		// If RAMGiB is 0, we try all measurements.
-		// If nonzero, skip sizes that don't match.
-		if opts.RAMGiB != 0 && m.GetRamGib() != uint32(opts.RAMGiB) {
+		// If nonzero, skip sizes that don't match. Compare in 64 bits: a requested size beyond 32 bits
+		// must not alias a listed size.
+		if opts.RAMGiB != 0 && uint64(m.GetRamGib()) != uint64(opts.RAMGiB) {
 			continue
 		}
 		mrtds = append(mrtds, m.GetMrtd())
+	}
+	// An empty allow-list means "unchecked" to the quote validator, so it must never be produced.
+	if len(mrtds) == 0 {
+		if opts.RAMGiB != 0 {
+			return nil, fmt.Errorf("endorsement has no TDX measurement for %d GiB of RAM", opts.RAMGiB)
+		}
+		return nil, fmt.Errorf("endorsement has no TDX measurements")
 	}
 	if err := modifyTdxPolicy(result, mrtds, opts); err != nil {
 		return nil, err
